@@ -17,7 +17,7 @@ from __future__ import annotations
 
 import base64
 import binascii
-from decimal import ROUND_HALF_UP, Decimal, localcontext
+from decimal import ROUND_HALF_UP, Decimal, InvalidOperation, localcontext
 from enum import Enum
 from typing import TYPE_CHECKING, Any
 
@@ -349,7 +349,7 @@ def check_convert_value(val: str, char: Characteristic) -> Any:
     if char.format in NUMBER_TYPES:
         try:
             val = Decimal(val)
-        except ValueError:
+        except (ValueError, InvalidOperation):
             raise FormatError(f'"{val}" is no valid "{char.format}"!')
 
         if char.minValue is not None:
